@@ -63,11 +63,46 @@ def _env():
     return env
 
 
+import threading
+ABORT = threading.Event()          # set by --fail-fast runs (VERIF_FAILFAST=1) once a violation is reproduced
+
+
+class _Done:
+    def __init__(self, rc, out, err):
+        self.returncode, self.stdout, self.stderr = rc, out, err
+
+
+def _run(cmd, timeout):
+    """subprocess.run(capture_output) that can be cut short by ABORT; raises TimeoutExpired like subprocess.run."""
+    if ABORT.is_set():
+        return None
+    import tempfile
+    with tempfile.TemporaryFile("w+") as fo, tempfile.TemporaryFile("w+") as fe:
+        p = subprocess.Popen(cmd, cwd=ROOT, env=_env(), stdout=fo, stderr=fe, text=True)
+        t0 = time.time()
+        while True:
+            try:
+                p.wait(timeout=1.0)
+                break
+            except subprocess.TimeoutExpired:
+                if ABORT.is_set() or time.time() - t0 > timeout:
+                    p.kill()
+                    p.wait()
+                    if ABORT.is_set():
+                        return None
+                    raise subprocess.TimeoutExpired(cmd, timeout)
+        fo.seek(0)
+        fe.seek(0)
+        return _Done(p.returncode, fo.read(), fe.read())
+
+
 def run_cond(c: Cond) -> dict:
     t0 = time.time()
     cmd = [PY, "-m", "vlib.e1worker", c.path, c.func, str(c.timeout)]
     try:
-        p = subprocess.run(cmd, cwd=ROOT, env=_env(), capture_output=True, text=True, timeout=c.timeout * 2 + 120)
+        p = _run(cmd, c.timeout * 2 + 120)
+        if p is None:
+            return {"verdict": "skipped", "detail": "fail-fast: a violation was already reproduced", "cond": c.name, "role": c.role, "wall": 0}
         out = p.stdout
         i = out.rfind("@@RESULT@@")
         if i < 0:
@@ -88,8 +123,9 @@ def run_obl(o: Obl) -> dict:
             "r=getattr(m,%r)(**json.loads(sys.argv[1]));sys.stdout.write('\\n@@RESULT@@'+json.dumps(r,default=str)+'\\n')"
             % (o.module, o.func))
     try:
-        p = subprocess.run([PY, "-c", code, json.dumps(o.kwargs)], cwd=ROOT, env=_env(), capture_output=True,
-                           text=True, timeout=o.timeout)
+        p = _run([PY, "-c", code, json.dumps(o.kwargs)], o.timeout)
+        if p is None:
+            return {"verdict": "skipped", "detail": "fail-fast: a violation was already reproduced", "obl": o.name, "wall": 0}
         i = p.stdout.rfind("@@RESULT@@")
         if i < 0:
             r = {"verdict": "error", "detail": "rc=%s %s" % (p.returncode, (p.stderr or p.stdout)[-2000:])}
@@ -144,11 +180,29 @@ class Run:
         self.inconclusive: list[str] = []
         self.replays = 0
         self.lines: list[str] = []
+        self.partial: list[str] = []
+        self.judged = 0
 
     def log(self, s):
         print(s, flush=True)
 
-    def execute(self, conds: list[Cond], obls: list[Obl]):
+    def _failfast(self, k, r):
+        """VERIF_FAILFAST=1 (used when running seeded changes): stop the remaining work once a violation is reproduced."""
+        if os.environ.get("VERIF_FAILFAST") != "1" or r.get("verdict") != "cex":
+            return
+        if k == "c":
+            c = r["_cond"]
+            if c.role != "main" or not r.get("cex_call"):
+                return
+            r["replay"] = run_replay(c.path, c.func, r["cex_call"])
+            rep = r["replay"]
+        else:
+            rep = r.get("replay") or {}
+        known = {f["key"] for f in load_findings(self.pid)}
+        if rep.get("violated") is True and rep.get("key") not in known:
+            ABORT.set()
+
+    def execute(self, conds: list[Cond], obls: list[Obl], lenient: bool = False):
         import random
         rnd = random.Random(self.seed)
         items = [("c", c) for c in conds] + [("o", o) for o in obls]
@@ -162,14 +216,17 @@ class Run:
                     r = f.result()
                 except Exception as e:  # noqa
                     r = {"verdict": "error", "detail": repr(e), "cond": it.name, "obl": it.name}
+                r["_lenient"] = lenient
                 if k == "c":
                     r["_cond"] = it
+                    self._failfast(k, r)
                     self.cond_results.append(r)
                     self.log("  [E1] %-58s %-9s %5ss paths=%s %s" % (it.name, r.get("verdict"), r.get("secs", "?"),
                                                                    r.get("stats", {}).get("num_paths", "?"),
                                                                    ((r.get("cex_message") or r.get("detail") or "") + (" why=%s" % r.get("rt", {}).get("why") if r.get("verdict") == "cex" and r.get("rt", {}).get("why") else ""))[:260]))
                 else:
                     r["_obl"] = it
+                    self._failfast(k, r)
                     self.obl_results.append(r)
                     self.log("  [E2] %-58s %-9s %5ss paths=%s queries=%s %s" % (it.name, r.get("verdict"), r.get("wall"),
                                                                               r.get("paths", "?"), r.get("queries", "?"),
@@ -180,8 +237,18 @@ class Run:
         known_keys = {f["key"]: f for f in known}
         os.makedirs(os.path.join(ROOT, "replays", self.pid), exist_ok=True)
         for r in self.cond_results:
+            if r.get("_judged"):
+                continue
+            r["_judged"] = True
             c: Cond = r["_cond"]
             v = r.get("verdict")
+            if v == "skipped":
+                continue
+            if v == "unknown" and r.get("_lenient") and c.role == "main":
+                # thorough tier, deep phase: budget ran out before the path tree was exhausted; nothing explored violated the condition
+                self.partial.append("%s: %s paths explored in %ss, no counterexample, path tree not exhausted within the budget"
+                                    % (c.name, r.get("stats", {}).get("num_paths", "?"), r.get("secs", "?")))
+                continue
             if c.role == "witness":
                 if v != "cex":
                     self.inconclusive.append("%s: reachability witness not reached (%s)" % (c.name, v))
@@ -201,14 +268,22 @@ class Run:
                 if call is None:
                     self.inconclusive.append("%s: counterexample without parsable call: %s" % (c.name, r.get("cex_message")))
                     continue
-                rep = run_replay(c.path, c.func, call)
+                rep = r.get("replay") or run_replay(c.path, c.func, call)
                 self.replays += 1
                 r["replay"] = rep
                 self._handle(rep, known_keys, c.name, call, r.get("cex_message"))
             else:
                 self.inconclusive.append("%s: %s %s" % (c.name, v, (r.get("detail") or "")[:300]))
         for r in self.obl_results:
+            if r.get("_judged"):
+                continue
+            r["_judged"] = True
             v = r.get("verdict")
+            if v == "skipped":
+                continue
+            if v == "unknown" and r.get("_lenient"):
+                self.partial.append("%s: solver budget exhausted (%s), no counterexample" % (r.get("obl"), str(r.get("detail"))[:120]))
+                continue
             if v == "confirmed":
                 self.replays += int(r.get("replays", 0))
                 continue
@@ -274,7 +349,7 @@ class Run:
             "bounds": meta.get("bounds", {}),
             "outside_bounds": meta.get("outside", []),
             "stubs": meta.get("stubs", []),
-            "e1_conditions": [{"name": r["cond"], "role": r["role"], "verdict": r.get("verdict"), "secs": r.get("secs"),
+            "e1_conditions": [{"name": r["cond"], "role": r["role"], "phase": "deep" if r.get("_lenient") else "floor", "verdict": r.get("verdict"), "secs": r.get("secs"),
                             "paths": r.get("stats", {}).get("num_paths"), "note": r["_cond"].note,
                             "cex": r.get("cex_call") if r["role"] != "main" or r.get("verdict") == "cex" else None}
                            for r in sorted(self.cond_results, key=lambda x: x["cond"])],
@@ -291,6 +366,7 @@ class Run:
                                     + sum(float(r.get("secs", 0) or 0) for r in self.obl_results), 2),
             "known_findings_hit": self.known_hits,
             "inconclusive": self.inconclusive,
+            "not_exhausted_within_budget": self.partial,
             "exhaustive": False,
         }
         ev = {"property_id": self.pid, "tier": self.tier, "seed": self.seed, "level": "model_checking",
@@ -315,6 +391,9 @@ class Run:
             for s in self.inconclusive:
                 self.log("INCONCLUSIVE property=%s %s" % (self.pid, s))
             return 2
-        self.log("OK property=%s tier=%s conditions=%d obligations=%d paths=%d wall=%ss"
-                 % (self.pid, self.tier, len(self.cond_results), len(self.obl_results), states, wall))
+        for s_ in self.partial:
+            self.log("PARTIAL property=%s %s" % (self.pid, s_))
+        self.log("OK property=%s tier=%s conditions=%d obligations=%d paths=%d wall=%ss%s"
+                 % (self.pid, self.tier, len(self.cond_results), len(self.obl_results), states, wall,
+                    " (deep phase: %d conditions not exhausted within the budget, see evidence)" % len(self.partial) if self.partial else ""))
         return 0
